@@ -37,11 +37,36 @@ def rule_i_wrap(ctx):
     impls = public_iterator_impls(ctx)
     n = 0
     for adt, ms in sorted(impls.items()):
-        if adt in sem and sem[adt][0] == "filter":
-            continue    # lazy set algebra: E9-set
         a_ = ctx.facts.adts.get(adt)
-        if a_ is not None and any(ctx.facts.types[f["ty"]].get("k") == "param" for v in a_["variants"] for f in v["fields"]):
-            continue    # holds a caller-supplied predicate by value (`f: F`): predicate-driven, its lower bound is 0 by nature: E9-pol
+        filtering = (adt in sem and sem[adt][0] == "filter") or \
+            (a_ is not None and any(ctx.facts.types[f["ty"]].get("k") == "param" for v in a_["variants"] for f in v["fields"]))
+        if filtering:
+            # lazy set algebra (E9-set) and predicate-driven iterators (`f: F`, E9-pol): elements may be filtered out, so the hint is
+            # (0, what the underlying iterator promises at most) — never an upper bound made up on the spot
+            b = ms.get("size_hint")
+            if b is not None:
+                n += 1
+                why = []
+                inner_sh = [c for bd in [b] + ctx.facts.closures_of(b) for c in ctx.calls(bd) if c.method == "size_hint" and not bd.is_cleanup(c.loc.bb)]
+                for rb in b.return_blocks():
+                    for d in b.defs_reaching(Loc(rb, len(b.stmts(rb))), 0):
+                        if d[3] != "assign" or d[4]["rv"]["k"] != "aggregate" or d[4]["rv"].get("agg") != "tuple" or len(d[4]["rv"]["ops"]) != 2:
+                            continue
+                        up = d[4]["rv"]["ops"][1]
+                        s_, _ = b.slice_back(d[0], [up])
+                        from_inner = any(c.loc in s_ for c in inner_sh if c.body is b) or (inner_sh and not all(c.body is b for c in inner_sh))
+                        for l in s_:
+                            if l.i == len(b.stmts(l.bb)) and b.term(l.bb)["k"] == "call":
+                                lc = ctx.call_at(b, l.bb).local_callee()
+                                if lc is not None and lc.kind != "Closure" and any(c.method == "size_hint" for c in ctx.calls(lc) if not lc.is_cleanup(c.loc.bb)):
+                                    from_inner = True        # an accessor of the wrapped iterator that reads its hint (`inner.upper_bound()`)
+                        none_lit = any(l.i < len(b.stmts(l.bb)) and b.stmts(l.bb)[l.i]["rv"].get("k") == "aggregate" and b.stmts(l.bb)[l.i]["rv"].get("variant") == "None" for l in s_)
+                        if not from_inner and not none_lit:
+                            why.append("the upper bound of the hint does not come from the iterator underneath (nor is it None)")
+                R.inst(adt=adt, method="size_hint", fn=b.path, kind="filtering", verdict="ok" if not why else "VIOLATION")
+                if why:
+                    R.viol("%s:size_hint:upper" % adt, b.where(Loc(0, 0)), "%s::size_hint: %s" % (adt, "; ".join(sorted(set(why)))))
+            continue
         for name, b in sorted(ms.items()):
             if name not in ("next", "size_hint", "len"):
                 continue
